@@ -8,6 +8,7 @@ package main
 // are compared with Model/XConn.v; the finder checks delivery soundness on the observed deliveries.
 
 import (
+	"bytes"
 	"context"
 	"encoding/binary"
 	"fmt"
@@ -95,12 +96,16 @@ type xstreamRec struct {
 	released bool    // pooled mode: the per-request buffer context went back to the pool (the sender must not be touched any more)
 	ptr      uintptr // address of the pooled xStream struct behind the sender
 	mu       sync.Mutex
+	hdr      api.HeaderMap   // the delivered objects retained BY REFERENCE and re-read at the end of the history (only
+	data     buffer.IoBuffer // meaningful while the request's buffer context has not been given back: non-pooled worlds)
+	snapTok  uint32
+	snapData string
 	recv     []uint32 // tokens of the answers delivered to this stream's receiver
 	resets   int
 	destroys int
 }
 
-func (s *xstreamRec) OnReceive(ctx context.Context, headers api.HeaderMap, data buffer.IoBuffer, trailers api.HeaderMap) {
+func xtokOf(headers api.HeaderMap) uint32 {
 	tok := uint32(0xffffffff)
 	switch f := headers.(type) {
 	case *ppFrame:
@@ -110,7 +115,18 @@ func (s *xstreamRec) OnReceive(ctx context.Context, headers api.HeaderMap, data 
 			fmt.Sscan(v, &tok)
 		}
 	}
+	return tok
+}
+
+func (s *xstreamRec) OnReceive(ctx context.Context, headers api.HeaderMap, data buffer.IoBuffer, trailers api.HeaderMap) {
+	tok := xtokOf(headers)
 	s.mu.Lock()
+	if len(s.recv) == 0 {
+		s.hdr, s.data, s.snapTok = headers, data, tok
+		if data != nil {
+			s.snapData = string(data.Bytes())
+		}
+	}
 	s.recv = append(s.recv, tok)
 	s.mu.Unlock()
 }
@@ -137,6 +153,7 @@ type xworld struct {
 	pooled   bool              // release every request's buffer context to the real pool when the request ends (as the proxy does)
 	dead     bool              // pooled mode: the connection was reset/closed; nothing is dispatched on it any more
 	reused   int               // pooled mode: how often NewStream handed out a pooled struct that an earlier request had used
+	rbuf     buffer.IoBuffer   // the connection's read buffer: ONE buffer, refilled for every read as network.connection does
 }
 
 var seenStructs sync.Map // address of pooled xStream structs already used by a request of this run
@@ -192,7 +209,7 @@ func (w *xworld) frameBytes(typ byte, id uint64, tok uint32) []byte {
 	var m interface{}
 	h := &boltHdr{kv: map[string]string{"tok": fmt.Sprint(tok)}}
 	if typ == ppResponse {
-		m = bolt.NewRpcResponse(uint32(id), bolt.ResponseStatusSuccess, h, nil)
+		m = bolt.NewRpcResponse(uint32(id), bolt.ResponseStatusSuccess, h, buffer.NewIoBufferString(fmt.Sprintf("payload-of-%d", tok)))
 	} else {
 		m = bolt.NewRpcRequest(uint32(id), h, nil)
 	}
@@ -333,8 +350,19 @@ func (w *xworld) apply(o xop) (xobsT, []xfinding) {
 					w.dead = true
 				}
 			}()
+			if w.rbuf == nil {
+				w.rbuf = buffer.NewIoBuffer(256)
+			}
+			w.rbuf.Write(b)
 			for _, rf := range w.conn.fm.rf {
-				rf.OnData(buffer.NewIoBufferBytes(b))
+				rf.OnData(w.rbuf)
+			}
+			w.rbuf.Drain(w.rbuf.Len()) // what the codec left (nothing for a whole frame) is dropped: the script sends whole frames
+			// buffer pool churn: a frame buffer given back too early is re-issued here and overwritten
+			for _, n := range []int{len(b), 2 * len(b), 64, 256} {
+				jb := buffer.GetIoBuffer(n)
+				jb.Write(bytes.Repeat([]byte{0xEE}, n))
+				buffer.PutIoBuffer(jb)
 			}
 		}()
 		out, coqOut = "ODrop", "ODrop"
@@ -488,7 +516,29 @@ func runX(gen string, c0 uint64, kind string, script []xop) *xhist {
 		h.obs = append(h.obs, ob)
 		h.fnd = append(h.fnd, fs...)
 	}
+	h.fnd = append(h.fnd, w.recheckDelivered()...)
 	return h
+}
+
+// recheckDelivered re-reads every delivered response through the references retained at delivery (requests whose buffer
+// context was not given back): later frames through the same read buffer, resets and buffer pool churn must not have changed them
+func (w *xworld) recheckDelivered() []xfinding {
+	for _, s := range w.streams {
+		s.mu.Lock()
+		hdr, data, tok, snap, released := s.hdr, s.data, s.snapTok, s.snapData, s.released
+		s.mu.Unlock()
+		if hdr == nil || released {
+			continue
+		}
+		now, nowData := xtokOf(hdr), ""
+		if data != nil {
+			nowData = string(data.Bytes())
+		}
+		if now != tok || nowData != snap {
+			return []xfinding{{"xconn:delivered-response-changed-after-later-traffic", fmt.Sprintf("stream %d: the response delivered to its receiver read token %d data %q at delivery and reads token %d data %q at the end of the history", s.idx, tok, snap, now, nowData)}}
+		}
+	}
+	return nil
 }
 
 func permutations(n int) [][]int {
